@@ -63,14 +63,14 @@ Proof.
   { unfold w2b. destruct okf; [split; congruence|]. destruct (report_env EFlush w2a K1) as [Kr [Ar _]]. split; congruence. }
   destruct K2 as [K2 A2]. destruct (U1_env _ _ (w_drop_U wra w2b) K2) as [K3 [A3 _]]. cbv beta in K3, A3.
   set (w3 := w_drop w2b wra) in *. unfold cleanup_or_queue at 1.
-  destruct (cleanup_impl c w3 (rs_cleanup rs) (ns_filter ns1) (ns_writes_direct ns1)) as [rc w4] eqn:EC.
-  destruct (U2_env _ _ _ _ (cleanup_impl_U c (rs_cleanup rs) (ns_filter ns1) (ns_writes_direct ns1) w3) K3 EC) as [K4 [A4 _]].
+  destruct (cleanup_impl c w3 (rs_cleanup rs) (ns_filter ns1) (if ns_writes_direct ns1 then Some p' else None)) as [rc w4] eqn:EC.
+  destruct (U2_env _ _ _ _ (cleanup_impl_U c (rs_cleanup rs) (ns_filter ns1) (if ns_writes_direct ns1 then Some p' else None) w3) K3 EC) as [K4 [A4 _]].
   destruct rc as [[]| |]; intros E; try discriminate E. injection E as <- <-.
   unfold cleanup_or_queue. destruct (rs_bg rs) eqn:Eb.
   - assert (EQ : match rs_cleanup rs with
                  | KNever => (Ok tt, w3)
                  | _ => if Nat.eqb (wacts w3) 1 then (Ok tt, w3) else
-                        match cleanup_impl c w3 (rs_cleanup rs) (ns_filter ns1) (ns_writes_direct ns1) with
+                        match cleanup_impl c w3 (rs_cleanup rs) (ns_filter ns1) (if ns_writes_direct ns1 then Some p' else None) with
                         | (Panic, w1) => (Ok tt, set_acts w1 1)
                         | (_, w1) => (Ok tt, w1)
                         end
@@ -127,13 +127,13 @@ Proof.
       [| intros E; injection E as <- <-; eexists; split; [reflexivity|]; split; [reflexivity|]; split; congruence
        | intros E; injection E as <- <-; eexists; split; [reflexivity|]; split; [reflexivity|]; split; congruence].
     assert (EC : exists r3 w4,
-               match k with KNever => (Ok tt, w3) | _ => cleanup_impl (nobg c) w3 k (ns_filter ns) (naming_writes_direct nam) end = (r3, w4)
-               /\ match k with KNever => (Ok tt, w3) | _ => cleanup_impl c w3 k (ns_filter ns) (naming_writes_direct nam) end = (r3, w4)
+               match k with KNever => (Ok tt, w3) | _ => cleanup_impl (nobg c) w3 k (ns_filter ns) (if naming_writes_direct nam then Some path else None) end = (r3, w4)
+               /\ match k with KNever => (Ok tt, w3) | _ => cleanup_impl c w3 k (ns_filter ns) (if naming_writes_direct nam then Some path else None) end = (r3, w4)
                /\ wkill w4 = None /\ wacts w4 = 0).
     { destruct k; [exists (Ok tt), w3; repeat split; congruence | | |]; rewrite cleanup_impl_nobg;
-        (destruct (cleanup_impl c w3 _ (ns_filter ns) (naming_writes_direct nam)) as [r3 w4] eqn:E3; exists r3, w4;
+        (destruct (cleanup_impl c w3 _ (ns_filter ns) (if naming_writes_direct nam then Some path else None)) as [r3 w4] eqn:E3; exists r3, w4;
          split; [reflexivity|]; split; [reflexivity|];
-         destruct (U2_env _ _ _ _ (cleanup_impl_U c _ (ns_filter ns) (naming_writes_direct nam) w3) K3 E3) as [K4 [A4 _]]; split; congruence). }
+         destruct (U2_env _ _ _ _ (cleanup_impl_U c _ (ns_filter ns) (if naming_writes_direct nam then Some path else None) w3) K3 E3) as [K4 [A4 _]]; split; congruence). }
     destruct EC as [r3 [w4 [E3n [E3 [K4 A4]]]]]. rewrite E3n, E3.
     destruct r3 as [[]| |]; cbn [bind];
       [| intros E; injection E as <- <-; eexists; split; [reflexivity|]; split; [reflexivity|]; split; congruence
